@@ -598,6 +598,13 @@ func enumC17(env *engine.Env, yield func(any) bool) {
 			}
 		}
 	}
+	for _, filler := range []string{"depends", "provides"} {
+		for _, v := range []string{"valid", "unknown-top", "unknown-rpm", "unknown-overrides"} {
+			if !yield(C17Case{Part: "large-level", Kind: filler, Value: v}) {
+				return
+			}
+		}
+	}
 	for _, e := range c17Enums {
 		for _, v := range e.values {
 			if !yield(C17Case{Part: "enum", Path: e.path, Value: v, Format: e.format}) {
@@ -828,6 +835,40 @@ func checkC17(env *engine.Env, ci any) engine.Outcome {
 		}
 		if pOK && len(serrs) > 0 {
 			viol("schema:rejects-accepted-path:"+pathKey(c.Path), "a minimal document with %s is accepted by the parser but rejected by the schema: %v\n%s", key, serrs, fixture.Doc(d).YAML())
+		}
+	case "large-level":
+		// the same judgement with more than a megabyte of valid settings in front of the key
+		d := c17Base()
+		var fill []any
+		for i := 0; i < 80000; i++ {
+			fill = append(fill, fmt.Sprintf("libfiller%07d", i))
+		}
+		d[c.Kind] = fill
+		switch c.Value {
+		case "unknown-top":
+			d["zz_undefined_key"] = "x"
+		case "unknown-rpm":
+			d["rpm"] = map[string]any{"zz_undefined_key": "x"}
+		case "unknown-overrides":
+			d["overrides"] = map[string]any{"rpm": map[string]any{"zz_undefined_key": "x"}}
+		}
+		pOK, _, serrs, harness := judge(d)
+		if harness != "" {
+			out.HarnessError = harness
+			return out
+		}
+		out.Transitions++
+		out.Nontrivial = true
+		out.Key = fmt.Sprintf("large-level:%s:%s:%v:%v", c.Kind, c.Value, pOK, len(serrs) == 0)
+		if pOK != (len(serrs) == 0) {
+			who := "the parser accepts it, the schema rejects it"
+			if !pOK {
+				who = "the parser rejects it, the schema accepts it"
+			}
+			viol("schema:large-document-verdicts-differ:"+c.Value, "a document with 80000 %s items (%d bytes) and %s: %s (schema: %v)", c.Kind, len(fixture.Doc(d).YAML()), c.Value, who, trunc(fmt.Sprint(serrs), 300))
+		}
+		if c.Value == "valid" && !pOK {
+			viol("schema:large-document-rejected", "a valid document with 80000 %s items is rejected by the parser", c.Kind)
 		}
 	case "level":
 		inj := "zz_undefined_key"
